@@ -81,7 +81,7 @@ pub fn c10(a: &Analysis) -> Vec<Violation> {
         let suspended = sc.script.iter().any(|e| matches!(e, Entry::User { op: UserOp::Suspend, .. }));
         for (c, side, ent, peer_side, peer, role) in [(&cs, &t.at_src, t.src_ent, &t.at_dst, d, "sender"), (&cr, &t.at_dst, d, &t.at_src, t.src_ent, "receiver")] {
             let Some(c) = c else { continue };
-            if has_jump || suspended {
+            if has_jump {
                 continue;
             }
             // (a) the cancelling entity's transaction ends within its bound
@@ -94,6 +94,11 @@ pub fn c10(a: &Analysis) -> Vec<Violation> {
                         out.push(vv("C10", "canceller_never_ended", role.into(), format!("txn {:?}: cancel at the {} at {}us, its transaction is still alive at {}us (bound {}us)", t.key, role, c.vt, a.rec.end_vt, b)));
                     }
                 }
+            }
+            // "at any moment" includes a cancel of a suspended transaction: it has to end as well;
+            // the remaining clauses are only judged without suspensions in the script
+            if suspended {
+                continue;
             }
             let before_any_finish = !reported_finished_by(side, c.vt) && !reported_finished_by(peer_side, c.vt);
             if !before_any_finish {
@@ -172,7 +177,7 @@ pub fn c10(a: &Analysis) -> Vec<Violation> {
             }
         }
         // (c) the destination name never holds anything but the complete file
-        if cs.is_some() || cr.is_some() {
+        if (cs.is_some() || cr.is_some()) && !suspended {
             if let Some(src) = a.rec.puts[pi].source.as_ref() {
                 let want = digest(src);
                 for (s, _, dg) in a.samples(pi) {
@@ -232,7 +237,7 @@ fn peer_reachable(sc: &Scenario, _from: usize, _to: usize) -> bool {
 
 fn build(ctx: &Ctx, tier: Tier, seed: u64) -> Vec<Job<'static>> {
     let (cfgs, n_rand) = match tier {
-        Tier::Quick => (16, 15_000),
+        Tier::Quick => (40, 60_000),
         Tier::Thorough => (160, 800_000),
     };
     let root = ctx.root(997);
@@ -271,6 +276,16 @@ fn build(ctx: &Ctx, tier: Tier, seed: u64) -> Vec<Job<'static>> {
                     for (s, d) in dirs {
                         x.script.push(Entry::Blackout { src: s, dst: d, from: p.clone(), until: Trigger::Never });
                     }
+                    sweep.push(x);
+                }
+                // cancel of a suspended transaction (same entity): it has to end all the same
+                for d in [0u64, 1000, 1_500_000] {
+                    let mut x = sc.clone();
+                    x.script.push(Entry::User { ent, op: UserOp::Suspend, put: 0, at: p.clone() });
+                    x.script.push(Entry::User { ent, op: UserOp::Cancel, put: 0, at: Trigger::Plus(Box::new(p.clone()), d) });
+                    sweep.push(x.clone());
+                    // ... also when nothing reaches it any more (only its own timers can end it)
+                    x.script.push(Entry::Blackout { src: 1 - ent, dst: ent, from: p.clone(), until: Trigger::Never });
                     sweep.push(x);
                 }
                 // cancel at both sides
